@@ -20,7 +20,7 @@ from ..gen import BASE_US
 
 REPLAY_BY_RERUN = True  # workloads are deterministic in (tier, seed, shard): replay re-runs the shard
 SHARDS = {"quick": 4, "thorough": 8}
-TIMEOUT = {"quick": 900, "thorough": 3600}
+TIMEOUT = {"quick": 1800, "thorough": 7200}
 SIZES = {"quick": [0, 1, 10, 100, 1000, 5000], "thorough": [0, 1, 2, 10, 100, 1000, 5000, 20000]}
 READ_KINDS = {"read", "iter"}
 
